@@ -36,13 +36,13 @@ Fixpoint ty_ind' (t : rty) : P t :=
   end.
 End TyInd.
 
-(* a user type lives in a crate: its path has at least the crate name *)
+(* a user type lives in one of the user's crates: its path starts with that crate's name *)
 Fixpoint wf_ty (t : rty) : Prop :=
   match t with
   | TBox a | TVec a | TOption a | TArray a _ | TSlice a => wf_ty a
   | TResult a e => wf_ty a /\ wf_ty e
   | TTuple ts => (fix go (l : list rty) : Prop := match l with [] => True | x :: r => wf_ty x /\ go r end) ts
-  | TUser path _ args => path <> [] /\ (fix go (l : list rty) : Prop := match l with [] => True | x :: r => wf_ty x /\ go r end) args
+  | TUser path _ args => (exists k rest, path = IUser k :: rest) /\ (fix go (l : list rty) : Prop := match l with [] => True | x :: r => wf_ty x /\ go r end) args
   | _ => True
   end.
 
@@ -64,7 +64,7 @@ Proof.
   induction 1 as [|x r Hx Hr IH]; [reflexivity|]. cbn [map]. rewrite all_some_cons, Hx, IH. reflexivity.
 Qed.
 
-Lemma all_some_user' path : all_some (map (@user_seg (option rty)) (map (fun s => (IUser s, @nil (option rty))) path)) = Some path.
+Lemma all_some_user' path : all_some (map (@user_seg (option rty)) (map (fun s => (s, @nil (option rty))) path)) = Some path.
 Proof.
   induction path as [|s r IH]; [reflexivity|]. cbn [map]. rewrite all_some_cons, IH. reflexivity.
 Qed.
@@ -74,18 +74,18 @@ Lemma in_scope_user {A} (s : nat) (rest : list (ident * list A)) a :
 Proof. reflexivity. Qed.
 
 Lemma resolve_path_user k modules name margs args : all_some margs = Some args ->
-  resolve_path ((IUser k, []) :: map (fun x : nat => (IUser x, @nil (option rty))) modules ++ [(IUser name, margs)])
-  = Some (TUser (k :: modules) name args).
+  resolve_path ((IUser k, []) :: map (fun x : ident => (x, @nil (option rty))) modules ++ [(name, margs)])
+  = Some (TUser (IUser k :: modules) name args).
 Proof.
-  intros Ha. set (ms := map (fun x : nat => (IUser x, @nil (option rty))) modules).
-  assert (Hrev : rev ((IUser k, []) :: ms ++ [(IUser name, margs)]) = (IUser name, margs) :: rev ((IUser k, []) :: ms)).
-  { change ((IUser k, []) :: ms ++ [(IUser name, margs)]) with (((IUser k, []) :: ms) ++ [(IUser name, margs)]).
+  intros Ha. set (ms := map (fun x : ident => (x, @nil (option rty))) modules).
+  assert (Hrev : rev ((IUser k, []) :: ms ++ [(name, margs)]) = (name, margs) :: rev ((IUser k, []) :: ms)).
+  { change ((IUser k, []) :: ms ++ [(name, margs)]) with (((IUser k, []) :: ms) ++ [(name, margs)]).
     rewrite rev_app_distr. reflexivity. }
-  unfold resolve_path. rewrite Hrev.
+  unfold resolve_path. cbn [user_crate]. rewrite Hrev.
   assert (Hne : exists y ys, rev ((IUser k, @nil (option rty)) :: ms) = y :: ys).
   { simpl. destruct (rev ms); simpl; eauto. }
   destruct Hne as (y & ys & Ey). rewrite Ey. cbn [tl]. rewrite <- Ey, rev_involutive.
-  change ((IUser k, []) :: ms) with (map (fun x : nat => (IUser x, @nil (option rty))) (k :: modules)).
+  change ((IUser k, []) :: ms) with (map (fun x : ident => (x, @nil (option rty))) (IUser k :: modules)).
   rewrite all_some_user', Ha. reflexivity.
 Qed.
 
@@ -104,11 +104,11 @@ Proof.
   - simpl in *. rewrite (IHt W). reflexivity.
   - simpl in *. rewrite (IHt W). reflexivity.
   - simpl in W. destruct W as [Wp Wa]. apply wf_list_forall in Wa.
-    destruct path as [|k modules]; [congruence|].
+    destruct Wp as (k & modules & ->).
     cbn [std_ast rewrite map app].
     (* the path starts with a user crate: no pattern of the rewriter matches *)
     set (segs' := map (fun s => match s with (i, args0) => (i, map rewrite args0) end)
-                      (map (fun s => (IUser s, @nil past)) modules ++ [(IUser name, map std_ast args)])).
+                      (map (fun s => (s, @nil past)) modules ++ [(name, map std_ast args)])).
     assert (Hsc : in_scope ((IUser k, []) :: segs') = false) by reflexivity.
     rewrite Hsc, andb_false_r.
     cbn [resolve map].
